@@ -2,7 +2,6 @@ package whitespace
 
 import (
 	"strings"
-	"unicode"
 
 	"github.com/ajitpratap0/GoSQLX/pkg/linter"
 	"github.com/ajitpratap0/GoSQLX/pkg/models"
@@ -71,8 +70,11 @@ func (r *TrailingWhitespaceRule) Check(ctx *linter.Context) ([]linter.Violation,
 			continue
 		}
 
-		lastChar := rune(line[len(line)-1])
-		if unicode.IsSpace(lastChar) && lastChar != '\n' && lastChar != '\r' {
+		// Only spaces and tabs are trailing whitespace (they are what Fix removes). The last
+		// byte must not be classified with unicode.IsSpace: it may be the final byte of a
+		// multi-byte character (0x85, 0xA0), and \v / \f are not removed by Fix.
+		lastChar := line[len(line)-1]
+		if lastChar == ' ' || lastChar == '\t' {
 			// Find the column where trailing whitespace starts
 			trimmed := strings.TrimRight(line, " \t")
 			column := len(trimmed) + 1
